@@ -1437,6 +1437,11 @@ impl HashColumn {
 						log::debug!( target: "parity-db", "Index {} is too old. Current is {}. Skipped", record.table, tables.index.id);
 						return IndexTable::skip_plan(log)
 					}
+					if crate::index::Entry::address_bits(record.table.index_bits()) >= 64 {
+						// No index of that size can exist: the (not yet checksummed) record is
+						// damaged. Growing the index that far would overflow.
+						return Err(Error::Corruption("Invalid log index id".to_string()))
+					}
 					// Re-launch previously started reindex
 					// TODO: add explicit log records for reindexing events.
 					log::warn!(
@@ -1468,6 +1473,11 @@ impl HashColumn {
 						// the restart. `enact_plan` skips it.
 						log::debug!( target: "parity-db", "Ref count {} is too old. Current is {}. Skipped", record.table, tables.get_ref_count().id);
 						return RefCountTable::skip_plan(log)
+					}
+					if record.table.index_bits() >= 64 {
+						// No table of that size can exist: the (not yet checksummed) record is
+						// damaged. Growing the table that far would overflow.
+						return Err(Error::Corruption("Invalid log ref count id".to_string()))
 					}
 					// Re-launch previously started reindex
 					// TODO: add explicit log records for reindexing events.
